@@ -126,7 +126,7 @@ def reads(ctx, R="R-C12-frame-aligned-reads", R2="R-C12-bytes-accounted"):
             ctx.bad(R, f, rst,
                     "each read asks for %s bytes, which is not a whole number of %s-byte frames (e.g. %s); the partial frame "
                     "at the end of every read is dropped, so samples are lost and channels rotate" % (S.show(size), S.show(F), w),
-                    "read size is a whole number of frames", extra={"witness": w})
+                    "read size is a whole number of frames", extra={"witness": w}, robust=True)
     # bytes converted per read == whole frames counted
     fb = [c for c in astq.calls_in(loop) if prog.qualify(f.module, c.func, f) == "numpy.frombuffer"]
     ctx.need(len(fb) == 1, R2, "np.frombuffer conversion not found in the read loop")
